@@ -1,23 +1,40 @@
-"""C19 — permessage-deflate: negotiation clause only."""
+"""C19 — permessage-deflate: negotiation clause and buffer bookkeeping of the compression paths."""
 from ..frontend import AnalysisBroken
 from ..core import queries as Q
 from ..core.program import fmt_term, fmt_atom
 
 META = {
     "explanation": (
-        "Only the negotiation clause of the property is decided: (1) R-GATE over all paths of fill_requested_extension (loop "
+        "Two groups of clauses. NEGOTIATION: (1) R-GATE over all paths of fill_requested_extension (loop "
         "unrolled once; twice in the thorough tier): every parameter written into the extension response is one of the four "
         "RFC 7692 names; client_max_window_bits is written only on paths on which the client's parameter matched that name; the "
         "parameters written after the loop are only the ones RFC 7692 lets a server add unsolicited (server_max_window_bits, "
         "server_no_context_takeover, client_no_context_takeover); no name is written twice on a path (the once-flags are "
-        "resolved path-sensitively); (2) R-BOUND: with each name written at most once the worst-case response length "
+        "resolved path-sensitively); a window-bits field is only lowered to the offered value of the same parameter; "
+        "(2) R-BOUND: with each name written at most once the worst-case response length "
         "(extension name + sum of '; ' + name + optional '=dd') plus the terminating NUL fits the constant passed to realloc, "
         "and the NUL is stored on every accepting path; (3) evidence only: the daemon constructs its HTTP connections with "
-        "compression level 0, for which negotiation returns before doing anything."),
-    "not_decided": "lossless round trip for every payload/window/takeover/fragmentation combination, bounded memory of reassembly "
-                   "and inflate, rejection of corrupt streams: run-time behaviour of zlib and of buffers whose sizes are run-time values",
-    "assumptions": [],
-    "trusted_base": ["RFC 7692 section 7.1: which parameters a server may add to its response unsolicited"],
+        "compression level 0, for which negotiation returns before doing anything. "
+        "BUFFER BOOKKEEPING (sa/core/pathmem.py: every path, loops unrolled twice, evaluated over an affine domain of SSA values "
+        "and memory cells; branch facts in the same symbols; an obligation D >= 0 is discharged iff after substituting the "
+        "path's equality facts D is a non-negative constant, has only non-negative coefficients over unsigned symbols, or differs "
+        "from one inequality fact of the path by such a form): (C19.3) reassemble(): a fragment is copied to offset capacity - free, "
+        "with free > length established strictly on the path, the capacity header equals the (re)allocation size, capacity - free "
+        "grows by exactly the copied length, success implies a buffer exists, failure resets avail_in; the consumers hand inflate "
+        "capacity - free - header bytes from buffer + header with memmove, header size agreeing; (C19.4) every return of "
+        "private_decompress leaves avail_in == 0; (C19.5) at every inflate call next_out - buffer + avail_out equals the last "
+        "(re)allocation size of the buffer that *free_ptr hands back, the input window lies inside the input copy, local buffer "
+        "writes stay inside their allocation; (C19.6) websocket_compress points deflate at dest with room that is a function of "
+        "length, send_frame allocates exactly that and checks allocation and result, a length is returned only with avail_out != 0 "
+        "(flush complete) and >= 4 bytes produced, and the room covers zlib's worst case for every length that reaches the compressor."),
+    "not_decided": "that inflate(deflate(x)) == x for every payload / window / context-takeover combination and that zlib rejects every "
+                   "corrupt stream: run-time behaviour of zlib (src/zlib is not analysed)",
+    "assumptions": ["distinct access paths do not alias (field-based memory model)",
+                    "size arithmetic does not wrap around (message sizes are bounded by configuration far below 2^32)",
+                    "zlib's inflate/deflate keep next_out + avail_out and next_in + avail_in invariant (they move the window, never widen it)"],
+    "trusted_base": ["RFC 7692 section 7.1: which parameters a server may add to its response unsolicited",
+                     "zlib.h: a flush is complete only when deflate returns with avail_out != 0; deflateBound's conservative formula "
+                     "len + (len+7)/8 + (len+63)/64 + 5 plus 6 bytes for the sync flush marker"],
 }
 
 NAMES = {"client_max_window_bits", "server_max_window_bits", "client_no_context_takeover", "server_no_context_takeover"}
@@ -198,5 +215,354 @@ def run(ctx):
         early = any(v.has_atom(lambda a, p: a[0] == "cmp" and Q.mentions(a[2], lambda x: x[0] == "field" and x[3] == "compression_level")
                                and a[3] == ("const", 0) and Q._poleq(a, p)) and not any(True for _ in v.calls()) for v in views)
         ctx.note("daemon constructs connections with compression level %s; level 0 returns before negotiating: %s (evidence, not a verdict)" % (lvl, early))
+        run_memory(ctx, P, cg)
     ctx.floor("C19.1 R-TABLE", 7)
     ctx.floor("C19.1 R-GATE", 9)
+
+
+# ---------------------------------------------------------------------------------------------------------------
+# memory clauses (C19.3 - C19.6): buffer bookkeeping of the reassembly / inflate / deflate paths
+# ---------------------------------------------------------------------------------------------------------------
+from ..core.pathmem import PathEval, a_add, a_scale, a_const, a_fmt, a_key  # noqa: E402
+
+CELL_CALLS = {"read_int_from_array": ("load", "hdr"), "write_int_to_array": ("store", "hdr")}
+
+
+def _zcell(mem, name):
+    ks = [k for k in mem if isinstance(k, tuple) and k and k[0] == "field" and k[2] == "struct.z_stream_s" and k[3] == name]
+    if len(set(ks)) > 1:
+        raise AnalysisBroken("more than one z_stream %s cell in one function" % name)
+    return ks[0] if ks else None
+
+
+def _zval(mem, name):
+    k = _zcell(mem, name)
+    return mem.get(k) if k is not None else None
+
+
+def _ptr_split(x):
+    """affine pointer value -> (pointer leaf, offset affine) if exactly one pointer-like leaf with coefficient 1"""
+    ptrs = [l for l, c in x[0].items() if l[0] == "alloc" or (l[0] == "init" and isinstance(l[1], tuple) and l[1] and l[1][0] == "field" and
+                                                              l[1][3] in ("next_in", "next_out")) or (l[0] == "param" and False)]
+    if len(ptrs) != 1 or x[0][ptrs[0]] != 1:
+        return None, None
+    p = ptrs[0]
+    return p, ({l: c for l, c in x[0].items() if l != p}, x[1])
+
+
+def _evals(ctx, P, f, iters):
+    vs = []
+    try:
+        ps = P.paths(f, loop_iters=iters, max_paths=40000)
+    except AnalysisBroken:
+        ps = P.paths(f, loop_iters=1)
+        ctx.note("%s: %d loop iterations exceed the path cap; one used" % (f.key, iters))
+    ctx.count("paths_enumerated", len(ps))
+    for p in ps:
+        pe = PathEval(P, f, Q.PathView(P, f, p), CELL_CALLS)
+        if not pe.infeasible:
+            vs.append(pe)
+    if not vs:
+        raise AnalysisBroken("no feasible path in %s" % f.key)
+    return vs
+
+
+class _Agg:
+    """one obligation per (rule, function, role), violated if any path violates it; remembers the first witness"""
+
+    def __init__(self, ctx):
+        self.ctx = ctx
+        self.recs = {}
+
+    def need(self, rule, f, role, ok, what, pe=None):
+        r = self.recs.setdefault((rule, f.key, role), {"f": f, "ok": True, "what": what, "n": 0, "wit": None})
+        r["n"] += 1
+        if not ok and r["ok"]:
+            r["ok"] = False
+            r["what"] = what
+            r["wit"] = pe.view.witness() if pe is not None else None
+
+    def flush(self):
+        for (rule, fk, role), r in self.recs.items():
+            self.ctx.ob(rule, r["f"], role, r["ok"], r["what"], witness=r["wit"], detail={"path_instances": r["n"]})
+
+
+def run_memory(ctx, P, cg):
+    A = _Agg(ctx)
+    hdr_consts = {}
+    for helper in CELL_CALLS:
+        P.fn("compression.c:" + helper)   # anchors: a vanished helper is 'analysis broken', not a violation
+    # ---- C19.3 reassembly buffer ----
+    f = P.fn("compression.c:reassemble")
+    ncopies = 0
+    for pe in _evals(ctx, P, f, 2):
+        rets = [e for e in pe.events if e.kind == "ret"]
+        if not rets:
+            continue
+        ret = rets[-1]
+        rv = a_const(ret.data["value"]) if ret.data["value"] is not None else None
+        success = rv == 0
+        copied = ({}, 0)
+        ncopy_path = 0
+        first = None
+        for e in pe.events:
+            if first is None and e.kind in ("call", "cellcall", "store", "load"):
+                first = e
+            if e.kind == "call" and e.data["callee"] in ("memcpy", "memmove"):
+                dest, ln = e.data["args"][0], e.data["args"][2]
+                N = _zval(e.mem, "next_in")
+                Av = _zval(e.mem, "avail_in")
+                if N is None or Av is None:
+                    continue
+                off = a_add(dest, N, -1)
+                if any(l[0] in ("alloc",) or (l[0] == "init" and l[1] == _zcell(e.mem, "next_in")) for l in off[0]):
+                    continue   # not a copy into the reassembly buffer
+                ncopies += 1
+                ncopy_path += 1
+                copied = a_add(copied, ln)
+                H = e.mem.get(("ptrcell", "hdr", a_key(N)))
+                A.need("C19.3 R-BOUND", f, "copy:capacity-known", H is not None,
+                       "the capacity header of the reassembly buffer is not known where the fragment is copied", pe)
+                if H is None:
+                    continue
+                A.need("C19.3 R-BOUND", f, "copy:offset-is-used-bytes", pe.equal(off, a_add(H, Av, -1), upto=e.pos),
+                       "the fragment is copied to offset %s, the bytes in use are capacity - free = %s" % (a_fmt(off), a_fmt(a_add(H, Av, -1))), pe)
+                ok = pe.entails(a_add(Av, ln, -1), strict=True, upto=e.pos)
+                A.need("C19.3 R-BOUND", f, "copy:strictly-inside-free-space", ok,
+                       "on this path nothing establishes free space > fragment length where the fragment is copied into the reassembly "
+                       "buffer (free = %s, length = %s): the copy can run past the end of the buffer, or fill it exactly and leave "
+                       "avail_in == 0, which is the marker for 'no message being collected'" % (a_fmt(Av), a_fmt(ln)), pe)
+                pl = [l for l in N[0] if l[0] == "alloc"]
+                if pl:
+                    A.need("C19.3 R-PAIR", f, "capacity-header-is-allocation-size", pe.equal(H, pe.alloc[pl[0]], upto=e.pos),
+                           "capacity header %s differs from the size the buffer was (re)allocated with, %s" % (a_fmt(H), a_fmt(pe.alloc[pl[0]])), pe)
+        if success:
+            N1 = _zval(ret.mem, "next_in")
+            A1 = _zval(ret.mem, "avail_in")
+            H1 = ret.mem.get(("ptrcell", "hdr", a_key(N1))) if N1 is not None else None
+            if ncopy_path == 0:
+                ok = A1 is not None and pe.entails(A1, strict=True)
+                A.need("C19.3 R-GATE", f, "success-implies-buffer", ok,
+                       "reassemble() reports success on a path that neither copies into the reassembly buffer nor establishes that one "
+                       "exists (avail_in != 0): the caller reads the capacity header through next_in", pe)
+                continue
+            if N1 is None or A1 is None or H1 is None:
+                A.need("C19.3 R-CURSOR", f, "used-grows-by-copied", False, "bookkeeping cells not resolved at return", pe)
+                continue
+            used1 = a_add(H1, A1, -1)
+            k_n1 = _zcell(ret.mem, "next_in")
+            fresh = any(e.kind == "store" and e.data["cell"] == k_n1 and any(l[0] == "alloc" and l[1] == "malloc" for l in e.data["value"][0])
+                        for e in pe.events)
+            if fresh:
+                d = a_add(used1, copied, -1)
+                c = a_const(d)
+                A.need("C19.3 R-CURSOR", f, "used-grows-by-copied:first-fragment", c is not None and c >= 0,
+                       "after the first fragment capacity - free = %s, expected header size + %s" % (a_fmt(used1), a_fmt(copied)), pe)
+                if c is not None:
+                    hdr_consts.setdefault("reassemble", set()).add(c)
+            else:
+                k_n = _zcell(ret.mem, "next_in")
+                k_a = _zcell(ret.mem, "avail_in")
+                n0 = ({("init", k_n): 1}, 0)
+                h0 = ({("init", ("ptrcell", "hdr", a_key(n0))): 1}, 0)
+                a0 = ({("init", k_a): 1}, 0)
+                used0 = a_add(h0, a0, -1)
+                A.need("C19.3 R-CURSOR", f, "used-grows-by-copied:later-fragment", pe.equal(a_add(used1, used0, -1), copied),
+                       "capacity - free changes by %s on a path that copies %s bytes" % (a_fmt(a_add(used1, used0, -1)), a_fmt(copied)), pe)
+        elif rv is not None and rv < 0:
+            A1 = _zval(ret.mem, "avail_in")
+            A.need("C19.4 R-TYPESTATE", f, "failure-resets-collecting-state", A1 is not None and pe.equal(A1, ({}, 0)),
+                   "reassemble() fails without resetting avail_in to 0 (the marker 'no message being collected')", pe)
+    if ncopies < 2:
+        raise AnalysisBroken("reassemble: copies into the reassembly buffer found on %d path(s)" % ncopies)
+    # consumers: collected length and data start
+    for fn in ("compression.c:text_frame_received_comp", "compression.c:binary_frame_received_comp"):
+        g = P.fn(fn)
+        nfin = 0
+        for pe in _evals(ctx, P, g, 1):
+            for e in pe.events:
+                if e.kind == "call" and e.data["callee"] == "private_decompress":
+                    nfin += 1
+                    N = _zval(e.mem, "next_in")
+                    Av = _zval(e.mem, "avail_in")
+                    H = e.mem.get(("ptrcell", "hdr", a_key(N))) if N is not None else None
+                    ptr, ln = e.data["args"][1], e.data["args"][2]
+                    if N is None or Av is None or H is None:
+                        A.need("C19.3 R-CURSOR", g, "collected-length", False, "bookkeeping cells not resolved at the inflate hand-over", pe)
+                        continue
+                    c = a_const(a_add(a_add(H, Av, -1), ln, -1))
+                    A.need("C19.3 R-CURSOR", g, "collected-length", c is not None and c >= 0,
+                           "length handed to inflate is %s, bytes in use are %s" % (a_fmt(ln), a_fmt(a_add(H, Av, -1))), pe)
+                    if c is not None:
+                        hdr_consts.setdefault(g.srcname, set()).add(c)
+                    # the collected bytes are moved to where inflate reads them
+                    mv = [m for m in pe.events if m.kind == "call" and m.data["callee"] in ("memmove", "memcpy") and m.pos < e.pos]
+                    okmv = False
+                    for m in mv:
+                        d0 = a_add(m.data["args"][0], ptr, -1)
+                        s0 = a_add(m.data["args"][1], N, -1)
+                        if a_const(d0) == 0 and a_const(s0) == c and pe.equal(m.data["args"][2], ln):
+                            okmv = m.data["callee"] == "memmove" or c is None or False
+                    A.need("C19.3 R-CURSOR", g, "collected-bytes-moved", okmv or pe.equal(a_add(ptr, N, -1), ({}, c or 0)),
+                           "inflate is not handed the collected bytes: expected data at buffer + %s, %s bytes (overlapping move needs memmove)" % (c, a_fmt(ln)), pe)
+        if nfin < 1:
+            raise AnalysisBroken("%s: hand-over to private_decompress not found" % fn)
+    vals = set()
+    for s in hdr_consts.values():
+        vals |= s
+    A.need("C19.3 R-PAIR", f, "header-size-agrees", len(vals) == 1 and len(hdr_consts) == 3,
+           "the size of the capacity header differs between reassemble() and the consumers of the buffer: %s" %
+           {k: sorted(v) for k, v in hdr_consts.items()})
+    # ---- C19.4 / C19.5 private_decompress ----
+    g = P.fn("compression.c:private_decompress")
+    ninfl = 0
+    for pe in _evals(ctx, P, g, 2):
+        for e in pe.events:
+            if e.kind == "ret":
+                Av = _zval(e.mem, "avail_in")
+                A.need("C19.4 R-TYPESTATE", g, "return-leaves-no-collecting-state", Av is not None and pe.equal(Av, ({}, 0), upto=e.pos),
+                       "private_decompress() returns with avail_in = %s; reassemble() takes avail_in != 0 for 'a message is being "
+                       "collected in next_in' and next_in has been freed here" % (a_fmt(Av) if Av is not None else "?"), pe)
+            if e.kind == "call" and e.data["callee"] == "inflate":
+                ninfl += 1
+                NO = _zval(e.mem, "next_out")
+                AO = _zval(e.mem, "avail_out")
+                if NO is None or AO is None:
+                    A.need("C19.5 R-CURSOR", g, "inflate:output-window", False, "next_out / avail_out not set before inflate()", pe)
+                    continue
+                p, off = _ptr_split(NO)
+                ok = p is not None and p in pe.alloc and pe.equal(a_add(off, AO), pe.alloc[p], upto=e.pos)
+                A.need("C19.5 R-CURSOR", g, "inflate:output-window", ok,
+                       "inflate() is given next_out = %s with avail_out = %s; the buffer was allocated with %s bytes: offset + avail_out "
+                       "must equal the allocation" % (a_fmt(NO), a_fmt(AO), a_fmt(pe.alloc[p]) if p in pe.alloc else "?"), pe)
+                fp = e.mem.get(("param", 3, "free_ptr"))
+                A.need("C19.5 R-PAIR", g, "inflate:writes-the-buffer-that-is-returned", fp is not None and p is not None and pe.equal(fp, ({p: 1}, 0)),
+                       "next_out points into %s, the buffer handed back through *free_ptr is %s" % (a_fmt(NO), a_fmt(fp) if fp else "?"), pe)
+                NI = _zval(e.mem, "next_in")
+                AI = _zval(e.mem, "avail_in")
+                pi, offi = _ptr_split(NI) if NI is not None else (None, None)
+                # the first call only: later calls see what inflate left
+                if pi is not None and pi in pe.alloc and AI is not None and not any(l[0] == "clob" for l in AI[0]):
+                    A.need("C19.5 R-CURSOR", g, "inflate:input-window", pe.entails(a_add(pe.alloc[pi], a_add(offi, AI), -1)),
+                           "inflate() may read %s bytes from offset %s of a %s byte buffer" % (a_fmt(AI), a_fmt(offi), a_fmt(pe.alloc[pi])), pe)
+            if e.kind in ("store", "call"):
+                _local_bounds(A, "C19.5 R-BOUND", g, pe, e)
+    if ninfl < 2:
+        raise AnalysisBroken("private_decompress: inflate() call instances on paths: %d" % ninfl)
+    # ---- C19.6 deflate side ----
+    w = P.fn("compression.c:websocket_compress")
+    cap_formula = None
+    nsucc = 0
+    for pe in _evals(ctx, P, w, 1):
+        dfl = [e for e in pe.events if e.kind == "call" and e.data["callee"] == "deflate"]
+        if not dfl:
+            continue
+        d = dfl[0]
+        AO = _zval(d.mem, "avail_out")
+        NO = _zval(d.mem, "next_out")
+        dest = ({("param", 1, w.params[1]["name"]): 1}, 0)
+        A.need("C19.6 R-PAIR", w, "deflate:writes-dest", NO is not None and pe.equal(NO, dest), "deflate() is not pointed at the caller's buffer", pe)
+        if AO is None or any(l[0] != "param" for l in AO[0]):
+            A.need("C19.6 R-PAIR", w, "deflate:room-is-a-function-of-length", False, "avail_out before deflate() is not a function of the length parameter", pe)
+            continue
+        cap_formula = AO
+        for e in pe.events:
+            if e.kind == "load" and e.pos > d.pos:
+                off = a_add(({k: c for k, c in e.data["cell"][2][0]}, e.data["cell"][2][1]), dest, -1)
+                if any(l[0] == "param" and l[1] == 1 for l in off[0]):
+                    continue
+                lo = pe.entails(off, upto=e.pos)
+                hi = pe.entails(a_add(a_add(AO, off, -1), ({}, 1), -1), upto=e.pos)
+                A.need("C19.6 R-BOUND", w, "tail-bytes-read-inside-output", lo and hi,
+                       "dest[%s] is read without a guard that keeps the index inside the produced output (at least 4 bytes produced)" % a_fmt(off), pe)
+            if e.kind == "ret" and e.data["value"] is not None:
+                c = a_const(e.data["value"])
+                if c is not None and c < 0:
+                    continue
+                nsucc += 1
+                A.need("C19.6 R-BOUND", w, "returned-length-not-negative", pe.entails(e.data["value"], upto=e.pos),
+                       "the compressed length %s is returned without a guard that the produced bytes include the 4 byte tail" % a_fmt(e.data["value"]), pe)
+                AO2 = _zval(e.mem, "avail_out")
+                A.need("C19.6 R-PROTO", w, "flush-complete", AO2 is not None and pe.entails(AO2, strict=True, upto=e.pos),
+                       "a length is returned although avail_out may be 0 after deflate(): zlib.h - the flush is complete only when deflate "
+                       "returns with avail_out != 0; the message is truncated", pe)
+    if cap_formula is None or nsucc < 1:
+        raise AnalysisBroken("websocket_compress: deflate path not found")
+    sf = P.fn("websocket.c:send_frame")
+    ncall = 0
+    for pe in _evals(ctx, P, sf, 1):
+        for e in pe.events:
+            if e.kind == "call" and e.data["callee"] == "websocket_compress":
+                ncall += 1
+                buf = e.data["args"][1]
+                p, off = _ptr_split(buf)
+                A.need("C19.6 R-NULL", sf, "compress-buffer-checked", p is not None and pe.entails(({p: 1}, 0), strict=True, upto=e.pos) or
+                       any(k == "gt0" and a_key(d) == a_key(({p: 1}, 0)) and pp <= e.pos for (pp, k, d) in pe.facts),
+                       "the buffer for the compressed payload is handed to websocket_compress() without a check of the allocation", pe)
+                if p is not None and p in pe.alloc:
+                    # capacity assumed by the callee, with its length parameter replaced by the argument
+                    sub = ({}, cap_formula[1])
+                    for l, c in cap_formula[0].items():
+                        sub = a_add(sub, a_scale(e.data["args"][l[1]], c))
+                    A.need("C19.6 R-PAIR", sf, "compress-buffer-size-agrees", pe.equal(pe.alloc[p], sub),
+                           "send_frame() allocates %s bytes, websocket_compress() lets deflate() write %s" % (a_fmt(pe.alloc[p]), a_fmt(sub)), pe)
+                    # room for the worst case (zlib deflateBound for raw deflate + sync flush marker)
+                    ln = e.data["args"][3]
+                    K = 0
+                    for (pp, k, d) in pe.facts:
+                        if pp <= e.pos and k in ("gt0", "ge0"):
+                            r = a_add(d, ln, -1)
+                            c = a_const(r)
+                            if c is not None:
+                                K = max(K, -c + (1 if k == "gt0" else 0))
+                    capL = pe.alloc[p]
+                    lin = [l for l in capL[0]]
+                    okroom = False
+                    if len(lin) == 1 and a_key(({lin[0]: 1}, 0)) == a_key(ln):
+                        a, b = capL[0][lin[0]], capL[1]
+                        okroom = a >= 2 and all(a * L + b >= _deflate_worst(L) for L in range(K, 70000))
+                    A.need("C19.6 R-BOUND", sf, "compress-room-for-worst-case", okroom,
+                           "payloads of %d bytes and more are compressed into %s bytes; zlib's bound for raw deflate with a sync flush "
+                           "(len + (len+7)/8 + (len+63)/64 + 5 + 6) does not fit for small payloads" % (K, a_fmt(capL)), pe)
+                r = e.data.get("result")
+                for e2 in pe.events:
+                    if e2.pos > e.pos and e2.kind in ("store", "call") and r is not None:
+                        vals2 = [e2.data["value"]] if e2.kind == "store" else e2.data["args"]
+                        for v in vals2:
+                            if any(l in v[0] for l in r[0]):
+                                A.need("C19.6 R-RET", sf, "compress-result-checked", pe.entails(r, upto=e2.pos),
+                                       "the result of websocket_compress() is used as a length without a check for the error value", pe)
+    if ncall < 1:
+        raise AnalysisBroken("send_frame: call of websocket_compress not found")
+    A.flush()
+    ctx.floor("C19.3 R-BOUND", 3)
+    ctx.floor("C19.3 R-CURSOR", 5)
+    ctx.floor("C19.4 R-TYPESTATE", 2)
+    ctx.floor("C19.5 R-CURSOR", 2)
+    ctx.floor("C19.6 R-BOUND", 3)
+
+
+def _deflate_worst(L):
+    return L + ((L + 7) >> 3) + ((L + 63) >> 6) + 5 + 6
+
+
+def _local_bounds(A, rule, f, pe, e):
+    """stores and copies into a buffer allocated on this path stay inside the allocation"""
+    if e.kind == "store":
+        k = e.data["cell"]
+        if not (isinstance(k, tuple) and k and k[0] == "ptrcell" and k[1] == "mem"):
+            return
+        addr = ({kk: c for kk, c in k[2][0]}, k[2][1])
+        width = ({}, 1)
+    elif e.data["callee"] in ("memcpy", "memmove", "memset"):
+        addr = e.data["args"][0]
+        width = e.data["args"][2]
+    else:
+        return
+    p, off = _ptr_split(addr)
+    if p is None or p not in pe.alloc:
+        return
+    lo = pe.entails(off, upto=e.pos)
+    hi = pe.entails(a_add(pe.alloc[p], a_add(off, width), -1), upto=e.pos)
+    A.need(rule, f, "local-buffer-writes-inside-allocation", lo and hi,
+           "%s bytes are written at offset %s of a buffer allocated with %s bytes" % (a_fmt(width), a_fmt(off), a_fmt(pe.alloc[p])), pe)
